@@ -71,6 +71,14 @@ struct Server {
     port: u16,
 }
 
+/// a server never outlives the history that started it (also when the harness unwinds)
+impl Drop for Server {
+    fn drop(&mut self) {
+        let _ = self.child.kill();
+        let _ = self.child.wait();
+    }
+}
+
 impl Server {
     fn start(bin: &Path, dir: &Path, port: u16, inc: usize) -> Option<Server> {
         let log = std::fs::File::create(dir.join(format!("server-{}.log", inc))).ok()?;
@@ -107,8 +115,6 @@ impl Server {
             }
             std::thread::sleep(Duration::from_millis(30));
         }
-        let _ = s.child.kill();
-        let _ = s.child.wait();
         None
     }
 
@@ -142,9 +148,8 @@ impl Server {
         Some(c)
     }
 
-    fn kill9(mut self) {
-        let _ = self.child.kill();
-        let _ = self.child.wait();
+    fn kill9(self) {
+        // Drop: SIGKILL + wait
     }
 
     /// SIGINT: the graceful path of `main` (WAL actor shutdown, final flush of the write buffer)
@@ -157,8 +162,6 @@ impl Server {
             }
             std::thread::sleep(Duration::from_millis(20));
         }
-        let _ = self.child.kill();
-        let _ = self.child.wait();
         false
     }
 }
@@ -212,9 +215,14 @@ impl W {
     }
 }
 
-/// the stamp (time, replica) the write was issued with, found by its unique payload
-fn stamp_of(w: &W, deltas: &[ReplicationDelta], seen_tombs: &mut Vec<(String, u64, u64)>) -> Option<(u64, u64)> {
-    let mut best: Option<(u64, u64)> = None;
+/// the stamp (time, replica) the write was issued with.  SET / HSET: found by the unique payload.
+/// DEL: a tombstone has no payload — it is the tombstone of that key with the smallest stamp above
+/// the previous acknowledged write of the key (`prev`); tombstones in between that belong to no
+/// acknowledged write exist (a DEL of an already deleted key answers 0 and still re-stamps the
+/// tombstone).  If there is none above `prev` (only possible when the property is violated) the
+/// largest remaining one is taken, so that the monotonicity oracle reports it.
+fn stamp_of(w: &W, deltas: &[ReplicationDelta], prev: Option<(u64, u64)>, seen_tombs: &mut Vec<(String, u64, u64)>) -> Option<(u64, u64)> {
+    let mut hits: Vec<(u64, u64)> = Vec::new();
     for d in deltas {
         if d.key != w.key() {
             continue;
@@ -231,14 +239,19 @@ fn stamp_of(w: &W, deltas: &[ReplicationDelta], seen_tombs: &mut Vec<(String, u6
             _ => None,
         };
         if let Some(s) = hit {
-            // a register keeps its stamp wherever it is copied: all hits agree; take the smallest
-            // for DEL (the first unseen tombstone)
-            best = Some(match best {
-                Some(b) if b <= s => b,
-                _ => s,
-            });
+            hits.push(s);
         }
     }
+    hits.sort();
+    hits.dedup();
+    let best = match w {
+        // a register keeps its stamp wherever it is copied: all hits agree
+        W::Set(..) | W::HSet(..) => hits.first().copied(),
+        W::Del(_) => match prev {
+            Some(p) => hits.iter().copied().find(|s| *s > p).or(hits.last().copied()),
+            None => hits.first().copied(),
+        },
+    };
     if let (W::Del(k), Some(s)) = (w, best) {
         seen_tombs.push((k.clone(), s.0, s.1));
     }
@@ -270,7 +283,7 @@ fn keys() -> Vec<String> {
 }
 
 /// one boot history; `graceful2` = incarnation 2 ends with SIGINT instead of SIGKILL
-pub async fn boot_history(out: &mut Out, rng: &mut Rng, graceful2: bool) {
+pub async fn boot_history(out: &mut Out, rng: &mut Rng, graceful2: bool, wal_only: bool) {
     let Some(bin) = rvpersist_path() else {
         out.violation("C08:coverage:persistent-server-main-not-built", "the binary rvpersist (= src/bin/server_persistent.rs of the tree under test, compiled by the harness crate) is not next to rvharness: the production start-up sequence cannot be driven", json!(null));
         return;
@@ -291,6 +304,8 @@ pub async fn boot_history(out: &mut Out, rng: &mut Rng, graceful2: bool) {
     let mut acked: Vec<(usize, W, Option<(u64, u64)>)> = Vec::new();
     let mut text = String::new();
     let mut seen_tombs: Vec<(String, u64, u64)> = Vec::new();
+    // stamp of the previous acknowledged write per key (to tell a DEL's tombstone from older ones)
+    let mut last_on_key: std::collections::HashMap<String, (u64, u64)> = Default::default();
     let mut ok = true;
     for inc in 1..=3usize {
         let mut server = None;
@@ -334,6 +349,19 @@ pub async fn boot_history(out: &mut Out, rng: &mut Rng, graceful2: bool) {
                 2 | 3 => W::HSet(format!("{}h", k), rng.pick(&["f", "g"]).to_string(), fresh("h")),
                 _ => W::Del(if rng.chance(1, 3) { format!("{}h", k) } else { k }),
             });
+        }
+        // a long run: many more writes than any batch / buffer / replay window of the pipeline holds
+        // (write buffer, group commit of 64, WAL replay), in the first incarnation of every other history
+        if wal_only {
+            if inc == 1 {
+                out.count("boot:recovery-source:wal-only(object store lost after incarnation 1)");
+            }
+        }
+        if inc == 1 && !graceful2 {
+            out.count("boot:long-run(300 writes)");
+            for i in 0..300 {
+                plan.push(W::Set(ks[i % 3].clone(), fresh("b")));
+            }
         }
         plan.push(W::Set(ks[0].clone(), fresh("last")));
         // somewhere in the middle: wait until the write buffer has been flushed to a segment
@@ -400,7 +428,10 @@ pub async fn boot_history(out: &mut Out, rng: &mut Rng, graceful2: bool) {
             if *i != inc {
                 continue;
             }
-            *st = stamp_of(w, &deltas, &mut seen_tombs);
+            *st = stamp_of(w, &deltas, last_on_key.get(w.key()).copied(), &mut seen_tombs);
+            if let Some(x) = *st {
+                last_on_key.insert(w.key().to_string(), x);
+            }
             if st.is_none() {
                 out.violation("C08:boot:acked-write-not-persisted", &format!("incarnation {}: the acknowledged {} (WAL fsync = always) is neither in the WAL nor in the object store after the process ended — the next start-up cannot advance its clock past that write", inc, w.show()), json!({"history": text}));
                 ok = false;
@@ -408,6 +439,14 @@ pub async fn boot_history(out: &mut Out, rng: &mut Rng, graceful2: bool) {
         }
         if !ok {
             break;
+        }
+        // recovery from the WAL ALONE: the object store (segments, manifest) is lost after the first
+        // incarnation — "recovery from any combination of checkpoint, segments and WAL"; every entry
+        // is then replayed exactly once (nothing is applied a second time from a segment)
+        if wal_only && inc == 1 {
+            let _ = std::fs::remove_dir_all(dir.join("data"));
+            let _ = std::fs::create_dir_all(dir.join("data"));
+            text.push_str("OBJECT-STORE-LOST;");
         }
     }
     // the property: per shard, stamps strictly increase in acknowledgement order, across restarts
@@ -426,7 +465,7 @@ pub async fn boot_history(out: &mut Out, rng: &mut Rng, graceful2: bool) {
                     out.violation(
                         &format!("C08:boot:stamp-not-increasing:{}", across),
                         &format!("shard {}: `{}` (incarnation {}) was acknowledged with stamp {:?} after `{}` (incarnation {}) with stamp {:?}", sh, w.show(), inc, st, pw, pinc, pst),
-                        json!({"history": text, "graceful-second-shutdown": graceful2}),
+                        json!({"history": text, "graceful-second-shutdown": graceful2, "object-store-lost-after-incarnation-1": wal_only}),
                     );
                 }
             }
@@ -434,6 +473,6 @@ pub async fn boot_history(out: &mut Out, rng: &mut Rng, graceful2: bool) {
         }
         out.count("boot:history-completed");
     }
-    out.case(&format!("BOOT:{}:{}", graceful2, acked.iter().map(|(i, w, _)| format!("{}{}", i, match w { W::Set(..) => "s", W::HSet(..) => "h", W::Del(_) => "d" })).collect::<Vec<_>>().join("")), nontrivial);
+    out.case(&format!("BOOT:{}:{}:{}", graceful2, wal_only, acked.iter().map(|(i, w, _)| format!("{}{}", i, match w { W::Set(..) => "s", W::HSet(..) => "h", W::Del(_) => "d" })).collect::<Vec<_>>().join("")), nontrivial);
     let _ = std::fs::remove_dir_all(&dir);
 }
